@@ -577,6 +577,9 @@ class PteraTransformer(NodeTransformer):
         new_body = []
 
         for external in sorted(self.external):
+            if not self.should_instrument(external):
+                # Not instrumented: let Python look it up when it is used
+                continue
             new_body.extend(
                 self.make_interaction(
                     target=ast.Name(id=external, ctx=ast.Store()),
@@ -742,6 +745,16 @@ class PteraTransformer(NodeTransformer):
             x: int = _ptera_interact('x', int)
         """
         value = node.value and self.visit(node.value)
+        if (
+            value is None
+            and isinstance(node.target, ast.Name)
+            and not self.should_instrument(
+                node.target.id, self._ann(node.annotation)
+            )
+        ):
+            # Declaration of a variable that is not instrumented: leave it
+            # alone, rather than assign the ABSENT marker to it
+            return node
         return self.make_interaction(
             node.target, self._ann(node.annotation), value, orig=node
         )
